@@ -531,7 +531,10 @@ where
     ///
     /// Returns `None` if the underlying value is not a data set sequence.
     pub fn items_mut(&mut self) -> Option<&mut C<I>> {
-        self.header.len = Length::UNDEFINED;
+        // only a data set sequence has its recorded length invalidated
+        if matches!(self.value, Value::Sequence(_)) {
+            self.header.len = Length::UNDEFINED;
+        }
         self.value.items_mut()
     }
 
@@ -550,7 +553,10 @@ where
     ///
     /// Returns `None` if the value is not a pixel data sequence.
     pub fn fragments_mut(&mut self) -> Option<&mut C<P>> {
-        self.header.len = Length::UNDEFINED;
+        // only a pixel data fragment sequence has its recorded length invalidated
+        if matches!(self.value, Value::PixelSequence(_)) {
+            self.header.len = Length::UNDEFINED;
+        }
         self.value.fragments_mut()
     }
 
